@@ -37,3 +37,26 @@ Proof.
   cbn [DecModel.walkDynamicChildArrayABIBytes DecModel.decodeABIElement].
   destruct (DecModel.decode_elementary topic (TCElem e s m n k) 0%Z 0%Z) as [v| |]; reflexivity.
 Qed.
+
+(* ------------------------------------------------------------------------------------------------
+   Call data against the Solidity specification, through C02's theorem for the encoder model:
+   EncodeCallData = selector ++ enc((T1,...,Tn), arguments).
+   ------------------------------------------------------------------------------------------------ *)
+From FFS Require Abi.EncModel Abi.EncProofs3 Abi.Spec.
+
+Theorem calldata_is_spec (H : bytes -> bytes) :
+  (forall m, length (H m) = 32%nat) ->
+  forall (e : entry) (cs : list tcomp) (x : cval),
+    tree_children (e_inputs e) = Ok cs -> all_suffix_canonical cs ->
+    let tc := TCTuple cs [] in
+    tc_wf tc = true -> tc_no_fixed_point tc = true -> tc_no_zero_len tc = true ->
+    typed_as tc x = true -> EncProofs3.values_ok x = true ->
+    Spec.well_typed (ty_of tc) (val_of x) = true -> EncProofs3.weight_ok (val_of x) ->
+    EncodeCallData H EncModel.EncodeABIData e x =
+      Ok (selector_spec H (e_name e) (map ty_of cs) ++ Spec.enc (TTuple (map ty_of cs)) (val_of x)).
+Proof.
+  intros Hlen e cs x Ht Hs tc Hwf Hnf Hnz Hty Hv Hwt Hw.
+  unfold EncodeCallData. destruct (selector_is_spec H Hlen e cs Ht Hs) as [-> _]. cbn [bind].
+  unfold EncModel.EncodeABIData.
+  rewrite (EncProofs3.encode_is_spec x tc Hwf Hnf Hnz Hty Hv Hwt Hw). cbn [bind fst]. reflexivity.
+Qed.
